@@ -884,6 +884,9 @@ class GraphProcessor:
                 graph_instance, sel_choice_opt_idx, sel_choice_is_active, i_comb = self._hierarchy_analyzer.get_graph(
                     sel_choice_opt_idx, mask=self._existence_mask, is_fixed=is_fixed, exclude=self._excluded_cache)
 
+                # Never hand out the graph object that is kept in the analyzer's cache
+                graph_instance = graph_instance.copy()
+
         except RuntimeError:
             print(f'Error occurred while getting graph for DV: {des_var_values}')
             raise
@@ -960,6 +963,7 @@ class GraphProcessor:
                 else:
                     graph_cache[cache_key] = graph_instance = \
                         graph_instance.get_for_apply_connection_choice(choice_node, node_edges, validate=False)
+                    graph_instance = graph_instance.copy()
 
             used_values[i_dv_start:i_dv_end] = [
                 int(val) if choice_is_active[i_dv] else None for i_dv, val in enumerate(choice_des_vector)]
